@@ -21,6 +21,23 @@ KERNEL_WITNESS = [
 ]
 
 
+# operators with a hand-written reference definition in witness/operator_witness_test.go (subtest name), and the
+# functions whose obligations they can replay
+OP_WITNESS = {}
+for _sub, _names in {
+    "TakeLast": ["TakeLast"], "SkipLast": ["SkipLast"], "Distinct": ["Distinct"], "DistinctByWithContext": ["DistinctBy", "DistinctByWithContext"],
+    "Pairwise": ["Pairwise"], "BufferWithCount": ["BufferWithCount"], "StartWith": ["StartWith"], "EndWith": ["EndWith"], "ToSlice": ["ToSlice"],
+    "ToMapIWithContext": ["ToMap", "ToMapI", "ToMapWithContext", "ToMapIWithContext"],
+    "SkipWhileIWithContext": ["SkipWhile", "SkipWhileI", "SkipWhileWithContext", "SkipWhileIWithContext"], "Flatten": ["Flatten"], "Average": ["Average"],
+    "ConcatWith": ["ConcatWith", "Concat", "ConcatAll"], "MergeWith1": ["MergeWith1", "MergeWith", "Merge", "MergeAll"], "Catch": ["Catch"],
+    "RepeatWith": ["RepeatWith"], "RetryWithConfig": ["RetryWithConfig", "Retry"],
+    "DefaultIfEmptyWithContext": ["DefaultIfEmpty", "DefaultIfEmptyWithContext"],
+    "GroupByIWithContext": ["GroupBy", "GroupByI", "GroupByWithContext", "GroupByIWithContext"],
+}.items():
+    for _n in _names:
+        OP_WITNESS[_n] = _sub
+
+
 def scratch_gowork(repo):
     d = tempfile.mkdtemp(prefix="rovc-replay-")
     out = []
@@ -141,6 +158,17 @@ def attempt(pid, ob, res, path, repo, root, seed, gen=None):
                 rec["replay_note"] = "no witness registered for " + fn
         else:
             rec["replay_note"] = "no replay generator for this obligation (site without an executable contract machine)"
+        if not found:
+            base = (op or ob.get("func") or ob["name"].split("/")[0]).split("$")[0]
+            sub = OP_WITNESS.get(base)
+            if sub:
+                src = open(os.path.join(root, "witness", "operator_witness_test.go")).read()
+                out, fails = run_overlay(repo, {"zz_rovc_opwitness_test.go": src}, "TestWitnessOperators/" + sub + "$", timeout=60)
+                rec["replay_kind"] = "operator witness %s: hand-written reference definition vs the real operator on every script up to length 4 over {0,1,2} x {complete,error,none}" % sub
+                rec["replay_output"] = out[-6000:]
+                if fails:
+                    found = True
+                    rec["failing_input"] = fails[:5]
     except Exception as e:  # a broken replay must never hide the violation
         rec["replay_error"] = repr(e)
     rec["replayed"] = found
